@@ -120,8 +120,8 @@ func init() {
 				}
 				return 40_000
 			}, Run: c10Random,
-				Rule: "PRNG histories of 20..200 calls (one in 64: 3000..6000 calls), biased to stay legal for long stretches, with resets and errors in the middle",
-				Min:  map[string]int64{"state_error": 1000, "accepted_histories_decoded": 1000}},
+				Rule: "PRNG histories of 20..200 calls (one in 64: 3000..6000 calls), biased to stay legal for long stretches, with resets and errors in the middle and with runs of 15..65 calls of one drawing verb (new operands each) followed by a decode check",
+				Min:  map[string]int64{"state_error": 1000, "accepted_histories_decoded": 1000, "runs_of_one_verb": 5000, "runs_of_arcs": 300}},
 		},
 	})
 }
@@ -174,6 +174,9 @@ func do10(e *encode.Encoder, l int, r *run.Rng, o *gen.Opts) (op rec.Op, recorde
 		op = rec.Op{K: rec.KStartPath, Adj: uint8(r.Pick(7, 8, 255, r.Range(7, 255))), F: [6]float32{1, 2}}
 	case l10Draw:
 		k := gen.DrawVerbs[2+r.Intn(len(gen.DrawVerbs)-2)]
+		if c10RunVerb >= 0 {
+			k = gen.DrawVerbs[c10RunVerb] // inside a run: the same verb again, new operands
+		}
 		op = gen.DrawOp(r, k, o)
 	case l10CloseMove:
 		op = gen.DrawOp(r, gen.DrawVerbs[r.Intn(2)], o)
@@ -186,6 +189,11 @@ func do10(e *encode.Encoder, l int, r *run.Rng, o *gen.Opts) (op rec.Op, recorde
 	rec.Apply(e, &op)
 	return op, true
 }
+
+// c10RunVerb, when >= 0, is the index in gen.DrawVerbs of the verb that
+// l10Draw calls use: long-random histories contain runs of one verb around the
+// Encoder's run-length chunk sizes (a worker process runs one case at a time).
+var c10RunVerb = -1
 
 type h10 struct {
 	c        *run.Ctx
@@ -379,13 +387,32 @@ func c10Random(c *run.Ctx, idx uint64) {
 	h := &h10{c: c}
 	h.start()
 	hash := uint64(0)
+	runLeft, runPending := 0, false
+	c10RunVerb = -1
+	defer func() { c10RunVerb = -1 }()
 	for i := 0; i < n; i++ {
 		var l int
 		rare := 1
 		if long {
 			rare = 40 // long histories must grow: few resets and errors
 		}
+		if runLeft == 0 {
+			c10RunVerb = -1
+			if h.s.drawing && !h.s.err && r.Chance(1, 25) {
+				// a run of one drawing verb around the run-length chunk sizes (16 per chunk, 32 for the 1-operand-pair verbs)
+				c10RunVerb = 2 + r.Intn(len(gen.DrawVerbs)-2)
+				runLeft = r.Pick(15, 16, 17, 18, 31, 32, 33, 34, 49, 65)
+				runPending = true
+				c.Count("runs_of_one_verb", 1)
+				if k := gen.DrawVerbs[c10RunVerb]; k == rec.KAbsArcTo || k == rec.KRelArcTo {
+					c.Count("runs_of_arcs", 1)
+				}
+			}
+		}
 		switch {
+		case runLeft > 0:
+			runLeft--
+			l = l10Draw
 		case r.Chance(1, 60*rare):
 			l = r.Intn(n10) // anything, often illegal
 		case r.Chance(1, 40*rare):
@@ -398,7 +425,11 @@ func c10Random(c *run.Ctx, idx uint64) {
 			l = r.Pick(l10StyleOK, l10StyleOK, l10StartOK, l10Read, l10Bytes)
 		}
 		hash = run.Hash64(hash, uint64(l))
-		if !h.call(l, r, &o, true, i == n-1 || (!long && r.Chance(1, 10))) {
+		decodeCheck := i == n-1 || (!long && r.Chance(1, 10))
+		if runPending && l == l10End {
+			decodeCheck, runPending = true, false // a run is always followed by a decode check at the end of its path
+		}
+		if !h.call(l, r, &o, true, decodeCheck) {
 			break
 		}
 	}
